@@ -86,6 +86,8 @@ def Obj.nDims : Obj → Nat
 inductive Err where
   | valueError
   | typeError
+  | indexError
+  | notImplementedError
 deriving Repr, DecidableEq
 
 def uscale3 (k : Rat) : Aff3 := ⟨⟨⟨k, 0, 0⟩, ⟨0, k, 0⟩, ⟨0, 0, k⟩⟩, ⟨0, 0, 0⟩⟩
@@ -174,12 +176,12 @@ def scaleFactoryCoded (arg : ScaleArg) (nDims : Option Nat) : Except Err ScaleOb
   | .array ks, none =>
       if ks.any (· == 0) then .error .valueError
       else match ks with
-        | [] => .error .valueError
+        | [] => .error .indexError            -- `np.all([])` holds, then `scale_factor[0]`
         | k :: _ => if ks.all (· == k) then mkUniformScale [k] ks.length else mkNonUniformScale ks
   | .array ks, some n =>
       if ks.any (· == 0) then .error .valueError
       else match ks with
-        | [] => .error .valueError
+        | [] => .error .indexError
         | _ :: _ => mkUniformScale ks n
 
 /-- the factory REPAIRED (notes/fixes/C20-scale-factory-array-with-ndims.diff): differing factors given together with
@@ -189,7 +191,7 @@ def scaleFactoryFixed (arg : ScaleArg) (nDims : Option Nat) : Except Err ScaleOb
   | .array ks, some n =>
       if ks.any (· == 0) then .error .valueError
       else match ks with
-        | [] => .error .valueError
+        | [] => .error .indexError
         | k :: _ =>
           if ks.all (· == k) then mkUniformScale ks n
           else if ks.length == n then mkNonUniformScale ks else .error .valueError
@@ -247,6 +249,8 @@ def exceptRow (owner name arg : String) (r : Except Err (Cls × Nat)) : CtorRow 
   | .ok (k, n) => ⟨owner, name, arg, k.name, n⟩
   | .error .valueError => ⟨owner, name, arg, "ValueError", 0⟩
   | .error .typeError => ⟨owner, name, arg, "TypeError", 0⟩
+  | .error .indexError => ⟨owner, name, arg, "IndexError", 0⟩
+  | .error .notImplementedError => ⟨owner, name, arg, "NotImplementedError", 0⟩
 
 /-- the classes that define `init_identity` themselves -/
 def identityClasses : List Cls :=
@@ -267,10 +271,36 @@ def angleRows : List CtorRow :=
 /-- class of `Translation ∘ T ∘ Translation` as `compose_before` returns it (the composition ladder of C03 restricted
 to what `transform_about_centre` does) -/
 def aboutCentreCls : Cls → Cls
-  | .translation | .rotation | .uniformScale | .similarity => .similarity
+  | .translation => .translation
+  | .rotation | .uniformScale | .similarity => .similarity
   | .affine | .nonUniformScale => .affine
   | .homogeneous => .homogeneous
   | .transformChain => .transformChain
+
+def Cls.parent : Cls → Option Cls
+  | .rotation | .translation | .uniformScale => some .similarity
+  | .similarity | .nonUniformScale => some .affine
+  | .affine => some .homogeneous
+  | .homogeneous | .transformChain => none
+
+/-- `issubclass(a, b)` inside the family -/
+def Cls.isSub (a b : Cls) : Bool :=
+  a == b || (match a.parent with
+    | none => false
+    | some p => p == b || (match p.parent with
+      | none => false
+      | some q => q == b || (match q.parent with
+        | none => false
+        | some r => r == b)))
+
+/-- class of `a.compose_before(b)` for two members of the family: the ladder of `Homogeneous._compose_before`
+(first common ancestor) — compared with the live classes on every run (`Generated.C20.composeTable`) -/
+def composeCls (a b : Cls) : Cls :=
+  if b.isSub a then a
+  else if a.isSub b then b
+  else if a.isSub .similarity && b.isSub .similarity then .similarity
+  else if a.isSub .affine && b.isSub .affine then .affine
+  else .homogeneous
 
 /-- result of each about-centre function on an object of dimension `n` -/
 def aboutRow (fn : String) (plain : Cls) (only2 : Bool) (n : Nat) : CtorRow :=
@@ -310,7 +340,32 @@ def tcoordsRows : List CtorRow :=
   ["image_coords_to_tcoords", "tcoords_to_image_coords"].flatMap fun fn =>
     [tcoordsRow fn 1 5, tcoordsRow fn 5 5, tcoordsRow fn 5 7]
 
+/-- the seven classes of the homogeneous family, in the order the harness probes them -/
+def familyClasses : List Cls :=
+  [.affine, .homogeneous, .nonUniformScale, .rotation, .similarity, .translation, .uniformScale]
+
+/-- class of `transform_about_centre(obj, T)` for a `T` of every class of the family (2-D object) -/
+def aboutClsRows : List CtorRow :=
+  familyClasses.map fun k => ⟨"compositions", "transform_about_centre", "cls=" ++ k.name, (aboutCentreCls k).name, 2⟩
+
+/-- class of `a.compose_before(b)` for every ordered pair of classes of the family (the ladder `composeCls`) -/
+def ladderRows : List CtorRow :=
+  familyClasses.flatMap fun a => familyClasses.map fun b =>
+    ⟨"ladder", "compose_before", a.name ++ ">" ++ b.name, (composeCls a b).name, 2⟩
+
+/-- which class supplies `_set_h_matrix` (method resolution; compared with the live classes on every run):
+`Homogeneous` itself uses its own, every class of the affine family `Affine._set_h_matrix` -/
+def Cls.setHIsAffine : Cls → Bool
+  | .homogeneous | .transformChain => false
+  | _ => true
+
+/-- the class that supplies `_set_h_matrix` to every class of the family (method resolution order) -/
+def setHRows : List CtorRow :=
+  familyClasses.map fun k =>
+    ⟨"mro", "_set_h_matrix", "cls=" ++ k.name, if k.setHIsAffine then "Affine" else "Homogeneous", 0⟩
+
 /-- the whole table, in the order the harness writes it -/
-def modelCtorTable : List CtorRow := angleRows ++ identityRows ++ compositionRows ++ scaleRows ++ tcoordsRows
+def modelCtorTable : List CtorRow :=
+  angleRows ++ identityRows ++ compositionRows ++ scaleRows ++ tcoordsRows ++ aboutClsRows ++ ladderRows ++ setHRows
 
 end MenpoModel.C20
